@@ -4,14 +4,20 @@
 //	P text   a chunk of shell output (CLine.Plain)
 //	S text   a status line (green CLine)
 //	Q        quit
+//
+// With OPSH_ICH=1 the entries of the input channel and what the Ctrl+I
+// generator returned are reported on file descriptor 4 ("I <base64>",
+// "G <n> <base64>") instead of being thrown away.
 package main
 
 import (
 	"bufio"
 	"context"
+	"encoding/base64"
 	"fmt"
 	"os"
 	"strings"
+	"sync"
 
 	"github.com/magisterquis/curlrevshell/lib/opshell"
 )
@@ -19,7 +25,30 @@ import (
 func main() {
 	ich := make(chan string, 1024)
 	och := make(chan opshell.CLine, 1024)
-	sh, cleanup, err := opshell.New(ich, och, "> ", true, func() ([]byte, error) { return []byte("inserted\n"), nil }, "ins")
+	gen := func() ([]byte, error) { return []byte("inserted\n"), nil }
+	report := os.Getenv("OPSH_ICH") == "1"
+	var note *os.File
+	var nmu sync.Mutex
+	if report {
+		note = os.NewFile(4, "notifications")
+		ngen := 0
+		gen = func() ([]byte, error) {
+			nmu.Lock()
+			defer nmu.Unlock()
+			ngen++
+			// distinct every time; several lines, quotes, a NUL and non-UTF-8 bytes; sizes from tiny to 70 KB
+			b := []byte(fmt.Sprintf("payload-%d 'q' \"d\" \\ {\nsecond line of %d\n\x00\xff\xfe tail", ngen, ngen))
+			switch ngen % 3 {
+			case 1:
+				b = append(b, '\n')
+			case 2:
+				b = append(b, []byte(strings.Repeat("0123456789abcdef\n", 4200))...)
+			}
+			fmt.Fprintf(note, "G %d %s\n", ngen, base64.StdEncoding.EncodeToString(b))
+			return b, nil
+		}
+	}
+	sh, cleanup, err := opshell.New(ich, och, "> ", true, gen, "ins")
 	if err != nil {
 		fmt.Fprintln(os.Stderr, "ERR", err)
 		os.Exit(3)
@@ -29,7 +58,12 @@ func main() {
 	defer cancel()
 	go sh.Do(ctx)
 	go func() {
-		for range ich {
+		for l := range ich {
+			if report {
+				nmu.Lock()
+				fmt.Fprintf(note, "I %s\n", base64.StdEncoding.EncodeToString([]byte(l)))
+				nmu.Unlock()
+			}
 		}
 	}()
 	och <- opshell.CLine{Line: "<READY>", Color: opshell.ColorGreen}
